@@ -11,6 +11,14 @@ NOTE = ("Trusted: CrossHair 0.0.110 + z3, the overlay venv, the environment stub
         "isinstance shim), the harness oracles under /verif/vf. Grammars are a fixed corpus (classes cannot be symbolic); all bounds are in evidence.assumptions.")
 
 CLAIMED = {
+    "C02": dict(
+        text="(a) generator/validator agreement per shipped metahandler with the refinement PARAMETERS themselves symbolic (integer bounds, sizes, "
+             "element lists) and every draw symbolic: generate() then an independent documented predicate and the handler's own validate() must hold on "
+             "every path; (b) the create/map/mutate pipelines of all representations on grammars using every refinement, with an independent "
+             "refinement oracle (dependent refinements re-evaluated on the actual sibling values) asserted on every produced program. Path trees are "
+             "exhausted per obligation. Bounds: parameters in [-6,6] (thorough [-40,40]), sizes <= 3-5, depth <= 3, fixed grammar corpus.",
+        design_ref="DESIGN.md section 4 (C02)",
+    ),
     "C01": dict(
         text="create -> map -> mutate/crossover pipelines of all five representations and all four deciders run on the real code with every random "
              "draw and every gene a free z3 integer; an independent well-typedness oracle (typing/dataclasses introspection only) is asserted on every "
